@@ -39,6 +39,7 @@ def scenarios(tier, seed):
                                                      dict(profile="pingpong", ncmd=(cyc + 40) // 2, gap=2 * cyc - 7, seed=5)],
                             seed * 3 + 1, tech=dict(tREFI=refi_ns), max_cycles=400000))
     from . import c02
+    out.append(dict(name="apalache-txxd-inductive", kind="apalache-txxd", seed=seed))
     return out + c02.lockstep_scenarios(tier, seed)[:2] + mux_lockstep_scenarios(tier, seed)
 
 
@@ -84,6 +85,25 @@ def _b3_mux(sc, workdir):
                 stats=dict(lockstep_cycles=cyc, lockstep_commands=cmds, tlc_behaviours_replayed=len(behs)))
 
 
+def _apalache_txxd(sc, workdir):
+    """Unbounded side argument (not on the verdict path): Apalache discharges an inductive invariant of the tXXDController logic
+    (the TxxdNext operator of the lock-step bound D-models) for every period 1..10^6: the gate never opens early."""
+    import os, subprocess
+    spec = os.path.join(os.path.dirname(os.path.dirname(os.path.dirname(os.path.abspath(__file__)))), "specs", "apalache")
+    obligations = [("Init => IndInv", "--init=Init --inv=IndInv --length=0"),
+                   ("IndInv /\\ Next => IndInv'", "--init=IndInit --inv=IndInv --length=1"),
+                   ("IndInv => Safe", "--init=IndInit --inv=Safe --length=0")]
+    done = 0
+    for name, args in obligations:
+        out = subprocess.run("timeout 600 apalache-mc check --cinit=ConstInit %s --out-dir=%s Txxd.tla" % (args, os.path.join(workdir, "apa")),
+                             shell=True, cwd=spec, stdout=subprocess.PIPE, stderr=subprocess.STDOUT, text=True).stdout
+        if "The outcome is: NoError" not in out:
+            raise RuntimeError("Apalache obligation '%s' not discharged:\n%s" % (name, out[-1500:]))
+        done += 1
+    return dict(bad=[], evaluations=done, nontrivial=[["apalache", o[0]] for o in obligations], traces=0,
+                sample=dict(obligations=[o[0] for o in obligations], range="T in 1..10^6"), stats=dict(apalache_obligations_discharged=done))
+
+
 def mux_models(tier, seed):
     return [dict(module="MC_Multiplexer", cfg="MC_Multiplexer_quick.cfg", label="multiplexer gates tRRD/tCCD/tWTR, phases (2 banks, 2 phases, zero slack)", workers=3, timeout=2400),
             dict(module="MC_Multiplexer", cfg="MC_Multiplexer_neg_wtr.cfg", label="negative control: write-to-read gate one cycle short", workers=2, timeout=1800, expect_violation=True),
@@ -107,6 +127,8 @@ def execute(sc, workdir):
         return _lockstep_mux(sc, workdir)
     if sc.get("kind") == "b3-mux":
         return _b3_mux(sc, workdir)
+    if sc.get("kind") == "apalache-txxd":
+        return _apalache_txxd(sc, workdir)
     r = execute_core(sc, workdir, ID, ("dev",))
     r["nontrivial"] = [[sc["memtype"], sc["clk_khz"], k] for k in r["kinds"] if k in ("ACT", "PRE", "PREA", "RD", "WR", "REF", "ZQCS")]
     return r
